@@ -151,9 +151,24 @@ Definition regular (root : node) (q : query) : bool :=
   nonempty (q_path q) && negb (dslash (q_path q))
   && optpath_eqb (os_resolve root (q_cwd q) (q_path q)) (phys root (q_comps q)).
 
+(* the only symbolic links of the property's quantifier are symlinked job directories *)
+Fixpoint links_ok (this_is_ws : bool) (n : node) : bool :=
+  match n with
+  | Dir es =>
+      (fix go (l : list (str * node)) : bool :=
+         match l with
+         | [] => true
+         | (k, v) :: l' =>
+             match v with Link _ => is_id k && this_is_ws | _ => true end
+             && links_ok (str_eqb k s_workspace && is_project_dir es) v
+             && go l'
+         end) es
+  | _ => true
+  end.
+
 Definition pre_q (base : str) (tree : node) (q : query) : bool :=
   forallb (fun c => negb (has_run c)) (base_comps base)
-  && layout_ok false tree && cfgs_ok tree && regular (mkroot base tree) q.
+  && layout_ok false tree && links_ok false tree && cfgs_ok tree && regular (mkroot base tree) q.
 
 Definition expected (root : node) (q : query) : option qres :=
   let comps := q_comps q in
@@ -182,13 +197,17 @@ Definition expected (root : node) (q : query) : option qres :=
       if ex && has_cfg root comps then Some (RRoot (abs_of comps)) else None
   end.
 
-(* the job's project is the one whose workspace holds the job directory *)
+(* the job's project is the one whose workspace physically holds the job directory *)
 Definition holder_ok (root : node) (q : query) : bool :=
   match q_kind q, q_res q with
   | QJob, RJob r _ =>
       match innermost_id (rev (q_comps q)) with
-      | Some (_, w :: rproj) => str_eqb w s_workspace && str_eqb r (abs_of (rev rproj))
-      | _ => false
+      | Some (_, rbefore) =>
+          match phys root (rev rbefore) with
+          | Some ph => optpath_eqb (Some ph) (phys root (norm_comps true (split_sl r) ++ [s_workspace]))
+          | None => false
+          end
+      | None => false
       end
   | _, _ => true
   end.
